@@ -113,7 +113,18 @@ def make_case(case, seed):
 def eval_case(case, seed):
     c = make_case(case, seed)
     qc, ep = c["qc"], c["ep"]
-    cap = scene.capture(c["items"])
+    if engine.subseed("C02-nano", seed, case["id"]) % 8 == 0:
+        # a nanosecond capture clock (if_tsresol 9, what dumpcap writes on Linux): datagrams with distinct timestamps that share a microsecond are still different
+        # datagrams.  Steps of >= 300 ns keep the stamps distinct even as double-precision seconds at today's epoch (resolution 238 ns)
+        from fractions import Fraction
+        t = Fraction(1700000000 * 10 ** 6 + c["rng"].randrange(10 ** 9))       # (a present-day epoch: beyond 2^31 s a double only resolves 477 ns)
+        for it in c["items"]:
+            t += Fraction(c["rng"].choice([300, 450, 700, 1300, 250000]), 1000)
+            it.ts = t
+        cap = scene.capture(c["items"], tsresol=9)
+        c["feats"].append("nano")
+    else:
+        cap = scene.capture(c["items"])
     keys = scene.keylog_text(c["flows"], c["rng"], decoys=c["rng"].random() < 0.35)
     mon = monitors.QuicMonitor()
     res, files, argv = e2e.run_capture(cap, keys, c["extra"], child_setup=mon.install)
